@@ -1,7 +1,7 @@
 # C09 — snapshotter: crash at any point, restart, re-mount
 PROPS["C09"] = dict(
     props_file="Properties/C09.v",
-    harnesses=[dict(cmd="snapcrash", mod="root", model="Model.SnapCrash", quick=56, thorough=2500, shard=7, coq_jobs=8,
+    harnesses=[dict(cmd="snapcrash", mod="root", model="Model.SnapCrash", quick=185, thorough=3600, shard=13, coq_jobs=12,
                     require=["crashop.prepare", "crashop.view", "crashop.remove", "crashop.close", "crashop.commit",
                              "cfg.norestore", "cfg.allow", "cfg.strict"])],
     rule="a history (3-18 calls) on a fresh root, then one more call (Prepare/View/Commit/Remove/Cleanup/Close) during which every crash-point "
